@@ -35,13 +35,17 @@ def grid_values():
 
 
 class ExprCase:
-    def __init__(self, ast, equs=None, nlabel=0, spell=None, tag=""):
+    def __init__(self, ast, equs=None, nlabel=0, spell=None, tag="", via_macro=False):
         self.ast, self.equs, self.nlabel, self.tag = ast, equs or {}, nlabel, tag
         self.spell = spell or Spell()
         lines = [equ(n, e) for n, e in self.equs.items()]
         # labels l1..ln on consecutive nops: label li has value i-1
         lines += [instr("nop", lab="l%d" % (i + 1)) for i in range(nlabel)]
-        lines.append(data(8, E(ast)))
+        if via_macro:
+            # the expression reaches the data directive as a macro argument: it means there what it means here
+            lines += [line("macro", n="put"), data(8, ARG(0)), line("endm"), call("put", E(ast))]
+        else:
+            lines.append(data(8, E(ast)))
         self.prog = lines
         self.pc = nlabel
         self.src = render(lines, spell=self.spell)
@@ -61,12 +65,15 @@ def shapes(tier):
                     k += 1
                     t = binop(o1, binop(o2, num(a), num(b)), num(c)) if form == 0 else binop(o1, num(a), binop(o2, num(b), num(c)))
                     out.append(ExprCase(t, tag="shape.bin-bin"))
+                    if rep == 0:
+                        out.append(ExprCase(copy.deepcopy(t), tag="shape.bin-bin-macro", via_macro=True))
     for u in UNOPS:
         for o in BINOPS:
             for a, b in ((1, 2), (0, 5), (7, 3)):
                 out.append(ExprCase(binop(o, un(u, num(a)), num(b)), tag="shape.un-left"))
                 out.append(ExprCase(binop(o, num(a), un(u, num(b))), tag="shape.un-right"))
                 out.append(ExprCase(un(u, binop(o, num(a), num(b))), tag="shape.un-over"))
+                out.append(ExprCase(binop(o, num(a), un(u, num(b))), tag="shape.un-macro", via_macro=True))
         for u2 in UNOPS:
             for a in (0, 1, 6):
                 out.append(ExprCase(un(u, un(u2, num(a))), tag="shape.un-un"))
